@@ -758,25 +758,29 @@ theorem mem_ordered {β} (f : Label → Option β) (ls : List Label) (l : Label)
     obtain ⟨rfl, rfl⟩ := ha
     exact hf
 
-/-- `_check_dataframe`: nothing happens when the remembered frame state is current; otherwise
-    `_update_columns` runs and the register is re-ordered to the frame's column order -/
+/-- `_check_dataframe`: nothing happens when the remembered frame state (and strictness) is
+    current; otherwise `_update_columns` runs and the register is re-ordered to the frame's column order -/
 theorem checkDataframe_ok {h : Heap} {i : Nat} {fr : Frame} {h' : Heap} (hc : checkDataframe h i fr = .ok h') :
-    ∃ inf, h.infos.get i = some inf ∧
-      ((inf.last = some fr.state ∧ h' = h) ∨
-       (inf.last ≠ some fr.state ∧ hasDup fr.labels = false ∧ ∃ es tm hU acc,
-          h.dicts.get inf.cols = some es ∧ h.tmetas.get inf.tmeta = some tm ∧
+    ∃ inf tm, h.infos.get i = some inf ∧ h.tmetas.get inf.tmeta = some tm ∧
+      ((inf.last = some (fr.state tm.strict) ∧ h' = h) ∨
+       (inf.last ≠ some (fr.state tm.strict) ∧ hasDup fr.labels = false ∧ ∃ es hU acc,
+          h.dicts.get inf.cols = some es ∧
           updLoop tm.strict fr.empty (h, es.filter (fun e => decide (e.1 ∈ fr.labels))) fr.cols = .ok (hU, acc) ∧
           h' = { hU with
                  dicts := hU.dicts.write inf.cols (fr.labels.filterMap (fun l => (assoc acc l).map (fun r => (l, r)))),
-                 infos := hU.infos.write i ⟨inf.tmeta, inf.cols, some fr.state⟩ })) := by
+                 infos := hU.infos.write i ⟨inf.tmeta, inf.cols, some (fr.state tm.strict)⟩ })) := by
   unfold checkDataframe at hc
-  unfold getInfo at hc
+  unfold getInfo getTMeta at hc
   cases hi : h.infos.get i with
   | none => simp [hi] at hc
   | some inf =>
-    refine ⟨inf, rfl, ?_⟩
     simp only [hi] at hc
-    by_cases hl : inf.last = some fr.state
+    cases htm0 : h.tmetas.get inf.tmeta with
+    | none => simp [htm0] at hc
+    | some tm =>
+    refine ⟨inf, tm, rfl, htm0, ?_⟩
+    simp only [htm0] at hc
+    by_cases hl : inf.last = some (fr.state tm.strict)
     · simp [hl] at hc; exact Or.inl ⟨hl, hc.symm⟩
     · simp only [hl, if_false] at hc
       right
@@ -789,18 +793,13 @@ theorem checkDataframe_ok {h : Heap} {i : Nat} {fr : Frame} {h' : Heap} (hc : ch
         cases hes : h.dicts.get inf.cols with
         | none => simp [hes] at hc
         | some es =>
-          simp only [hes] at hc
-          cases htm : h.tmetas.get inf.tmeta with
-          | none => simp [htm] at hc
-          | some tm =>
-            simp only [htm] at hc
-            cases hul : updLoop tm.strict fr.empty (h, es.filter (fun e => decide (e.1 ∈ fr.labels))) fr.cols with
-            | error e => simp [hul] at hc
-            | ok st =>
-              obtain ⟨hU, acc⟩ := st
-              simp [hul] at hc
-              exact ⟨hl, hd', es, tm, hU, acc, rfl, rfl, hul, hc.symm⟩
-
+          simp only [hes, htm0] at hc
+          cases hul : updLoop tm.strict fr.empty (h, es.filter (fun e => decide (e.1 ∈ fr.labels))) fr.cols with
+          | error e => simp [hul] at hc
+          | ok st =>
+            obtain ⟨hU, acc⟩ := st
+            simp [hul] at hc
+            exact ⟨hl, hd', es, hU, acc, rfl, hul, hc.symm⟩
 
 theorem UpdInv.init (empty : Bool) (b : Heap) (acc0 : Acc)
     (hb : ∀ l (r : Nat), (l, r) ∈ acc0 → r < b.cols.next) : UpdInv empty b b acc0 acc0 [] where
@@ -848,7 +847,7 @@ structure FinFacts (h : Heap) (m : Option Str) (o : Other) (fr : Frame) (h' : He
   src_items : sourceItems h (d0 :: rest) = .ok items
   ext : HeapExt h h'
   info_ref : i = h.infos.next
-  info : h'.infos.get i = some ⟨h.tmetas.next, h.dicts.next, some fr.state⟩
+  info : h'.infos.get i = some ⟨h.tmetas.next, h.dicts.next, some (fr.state strict)⟩
   tmeta : h'.tmetas.get h.tmetas.next = some ⟨tm0.name, h.dsets.next, .node none parents (some (pandasOp m)), false, strict⟩
   dests : h'.dsets.get h.dsets.next = some xs.eraseDups
   dict : h'.dicts.get h.dicts.next = some ordered
@@ -915,12 +914,17 @@ theorem finalize_table_facts {h : Heap} {m : Option Str} {oi : Option Ref} {o : 
         have e_tm : h1.tmetas = (h.tmetas.alloc ⟨tm0.name, tm0.dests, .node none parents (some (pandasOp m)), false, !ns⟩).1.write
             h.tmetas.next ⟨tm0.name, h.dsets.next, .node none parents (some (pandasOp m)), false, !ns⟩ := by rw [hh1]
         -- the consultation of the new info
-        obtain ⟨inf, hinf, hcase⟩ := checkDataframe_ok hcd
+        obtain ⟨inf, tmc, hinf, htmc, hcase⟩ := checkDataframe_ok hcd
         have hinf' : inf = ⟨mref, h2.dicts.next, none⟩ := by
           rw [hC', hi] at hinf
           simpa using hinf.symm
         subst hinf'
-        rcases hcase with ⟨hlast, _⟩ | ⟨_, hdup, es, tm, hU, accU, hes, htm, hul, hF'⟩
+        have htmc' : tmc = ⟨tm0.name, h.dsets.next, .node none parents (some (pandasOp m)), false, !ns⟩ := by
+          have e1 : hC.tmetas = h1.tmetas := by rw [hC']; exact inv.tmetas
+          rw [e1, e_tm, hmref] at htmc
+          simpa using htmc.symm
+        subst htmc'
+        rcases hcase with ⟨hlast, _⟩ | ⟨_, hdup, es, hU, accU, hes, hul, hF'⟩
         · simp at hlast
         have hes' : es = acc := by
           rw [hC'] at hes
@@ -976,7 +980,7 @@ theorem finalize_table_facts {h : Heap} {m : Option Str} {oi : Option Ref} {o : 
               exact Store.Ext.write (Store.Ext.alloc _ _) _ _ (Nat.le_refl _)
             infos := by
               have : hF.infos = ((h.infos.alloc ⟨mref, h2.dicts.next, none⟩).1).write h.infos.next
-                  ⟨mref, h2.dicts.next, some fr.state⟩ := by
+                  ⟨mref, h2.dicts.next, some (fr.state (!ns))⟩ := by
                 rw [hF']; show hU.infos.write _ _ = _; rw [upd.infos, hC', hi]
                 show (h2.infos.alloc _).1.write h2.infos.next _ = _
                 rw [inv.infos, e_infos]
@@ -1002,7 +1006,7 @@ theorem finalize_table_facts {h : Heap} {m : Option Str} {oi : Option Ref} {o : 
             rw [inv.dicts, e_dicts]; simp
           infos_next := by
             have : hF.infos = ((h.infos.alloc ⟨mref, h2.dicts.next, none⟩).1).write h.infos.next
-                ⟨mref, h2.dicts.next, some fr.state⟩ := by
+                ⟨mref, h2.dicts.next, some (fr.state (!ns))⟩ := by
               rw [hF']; show hU.infos.write _ _ = _; rw [upd.infos, hC', hi]
               show (h2.infos.alloc _).1.write h2.infos.next _ = _
               rw [inv.infos, e_infos]
@@ -1347,6 +1351,135 @@ theorem frame_colwrite {h : Heap} {s : Nat} {inf : Info} {es : List (Label × Re
     have := ha x hx'
     cases x <;> exact this
 
+/-- a consultation (`_check_dataframe`, incl. `_update_columns` deleting stale entries, registering
+    new columns and re-ordering the dict in place) touches only the info itself and its dict, and
+    allocates the column objects of newly registered columns -/
+theorem checkDataframe_frame {h : Heap} {s : Nat} {fr : Frame} {h' : Heap}
+    (hc : checkDataframe h s fr = .ok h') (ha : Alloc h s) : FrameOf h h' s := by
+  obtain ⟨inf, tm, hi, htm, hcase⟩ := checkDataframe_ok hc
+  rcases hcase with ⟨_, rfl⟩ | ⟨_, hdup, es, hU, accU, hes, hul, hF'⟩
+  · exact FrameOf.refl ha
+  have hold : ∀ l' (r' : Nat), (l', r') ∈ es → r' < h.cols.next := fun l' r' hm' =>
+    ha (.col r') (mem_reach.2 (Or.inr ⟨inf, hi, Or.inr (Or.inr (Or.inr ⟨es, l', r', hes, hm', Or.inl rfl⟩))⟩))
+  have hkept : ∀ l (r : Nat), (l, r) ∈ es.filter (fun e => decide (e.1 ∈ fr.labels)) → (l, r) ∈ es :=
+    fun l r hm => (List.mem_filter.1 hm).1
+  have upd := updLoop_inv (b := h) fr.cols hul
+    (UpdInv.init fr.empty h _ (fun l r hm => hold l r (hkept l r hm)))
+  simp only [List.nil_append] at upd
+  have hcols : h'.cols = hU.cols := by rw [hF']
+  have hfmts : h'.fmts = h.fmts := by rw [hF']; exact upd.fmts
+  have hdsets : h'.dsets = h.dsets := by rw [hF']; exact upd.dsets
+  have htmetas : h'.tmetas = h.tmetas := by rw [hF']; exact upd.tmetas
+  have hdicts : h'.dicts = h.dicts.write inf.cols
+      (fr.labels.filterMap (fun l => (assoc accU l).map (fun r => (l, r)))) := by
+    rw [hF']; show hU.dicts.write _ _ = _; rw [upd.dicts]
+  have hinfos : h'.infos = h.infos.write s ⟨inf.tmeta, inf.cols, some (fr.state tm.strict)⟩ := by
+    rw [hF']; show hU.infos.write _ _ = _; rw [upd.infos]
+  have hmono : ∀ x, locOld h x → locOld h' x := by
+    intro x hx
+    cases x with
+    | col r => show r < h'.cols.next; rw [hcols]; exact Nat.lt_of_lt_of_le hx upd.cols.1
+    | fmt r => show r < h'.fmts.next; rw [hfmts]; exact hx
+    | dset r => show r < h'.dsets.next; rw [hdsets]; exact hx
+    | tmeta r => show r < h'.tmetas.next; rw [htmetas]; exact hx
+    | dict r => show r < h'.dicts.next; rw [hdicts]; exact hx
+    | info r => show r < h'.infos.next; rw [hinfos]; exact hx
+  exact {
+    mono := hmono
+    agree := fun x hox hnr => by
+      cases x with
+      | col r => show h'.cols.get r = h.cols.get r; rw [hcols]; exact upd.cols.2 r hox
+      | fmt r => show h'.fmts.get r = h.fmts.get r; rw [hfmts]
+      | dset r => show h'.dsets.get r = h.dsets.get r; rw [hdsets]
+      | tmeta r => show h'.tmetas.get r = h.tmetas.get r; rw [htmetas]
+      | dict r =>
+        have : r ≠ inf.cols := by
+          intro e; subst e
+          exact hnr (mem_reach.2 (Or.inr ⟨inf, hi, Or.inr (Or.inl rfl)⟩))
+        show h'.dicts.get r = h.dicts.get r
+        rw [hdicts]; simp [this]
+      | info r =>
+        have : r ≠ s := by
+          intro e; subst e
+          exact hnr (mem_reach.2 (Or.inl rfl))
+        show h'.infos.get r = h.infos.get r
+        rw [hinfos]; simp [this]
+    grow := fun x hx => by
+      rw [mem_reach] at hx
+      have key : x ∈ reach h s ∨ (locFresh h x ∧ locOld h' x) := by
+        rcases hx with h1 | ⟨inf', hi', h1⟩
+        · exact Or.inl (mem_reach.2 (Or.inl h1))
+        · rw [hinfos] at hi'
+          simp at hi'
+          subst hi'
+          rcases h1 with h1 | h1 | ⟨tm', htm', h1⟩ | ⟨es', l, r, hes', hm, h1⟩
+          · exact Or.inl (mem_reach.2 (Or.inr ⟨inf, hi, Or.inl h1⟩))
+          · exact Or.inl (mem_reach.2 (Or.inr ⟨inf, hi, Or.inr (Or.inl h1)⟩))
+          · rw [htmetas] at htm'
+            exact Or.inl (mem_reach.2 (Or.inr ⟨inf, hi, Or.inr (Or.inr (Or.inl ⟨tm', htm', h1⟩))⟩))
+          · rw [hdicts] at hes'
+            simp at hes'
+            subst hes'
+            have hacc := mem_ordered (fun l => assoc accU l) fr.labels l r hm
+            cases hk : assoc (es.filter (fun e => decide (e.1 ∈ fr.labels))) l with
+            | some r0 =>
+              have := upd.old l r0 hk
+              rw [hacc] at this
+              have hrr : r = r0 := Option.some.inj this
+              subst hrr
+              have hmes := hkept l r (assoc_mem hk)
+              have hlt := hold l r hmes
+              rcases h1 with h1 | ⟨cm2, f, hc2, hf2, h1⟩
+              · exact Or.inl (mem_reach.2 (Or.inr ⟨inf, hi, Or.inr (Or.inr (Or.inr
+                  ⟨es, l, r, hes, hmes, Or.inl h1⟩))⟩))
+              · rw [hcols, upd.cols.2 r hlt] at hc2
+                exact Or.inl (mem_reach.2 (Or.inr ⟨inf, hi, Or.inr (Or.inr (Or.inr
+                  ⟨es, l, r, hes, hmes, Or.inr ⟨cm2, f, hc2, hf2, h1⟩⟩))⟩))
+            | none =>
+              obtain ⟨_, b2, k, u, _, _, hget⟩ := upd.new l r hacc hk
+              have hbU : r < h'.cols.next := by rw [hcols]; exact upd.bound l r (assoc_mem hacc)
+              rcases h1 with h1 | ⟨cm2, f, hc2, hf2, h1⟩
+              · subst h1
+                exact Or.inr ⟨b2, hbU⟩
+              · rw [hcols, hget] at hc2
+                have : cm2 = ⟨u, none, none⟩ := (Option.some.inj hc2).symm
+                subst this
+                simp at hf2
+      rcases key with hx' | ⟨h1, h2⟩
+      · exact ⟨Or.inl hx', hmono x (ha x hx')⟩
+      · exact ⟨Or.inr h1, h2⟩ }
+
+/-- forgetting the remembered frame state of `s` (`_last_dataframe_state = None`) on top of a
+    change confined to `s` is still confined to `s` -/
+theorem frame_reset_last {h h' : Heap} {s : Nat} {inf : Info} (hf : FrameOf h h' s)
+    (hi' : h'.infos.get s = some inf) :
+    FrameOf h { h' with infos := h'.infos.write s ⟨inf.tmeta, inf.cols, none⟩ } s where
+  mono := fun x hx => by
+    have := hf.mono x hx
+    cases x <;> exact this
+  agree := fun x hox hnr => by
+    have hag := hf.agree x hox hnr
+    cases x with
+    | info r =>
+      have : r ≠ s := by
+        intro e; subst e
+        exact hnr (mem_reach.2 (Or.inl rfl))
+      show (h'.infos.write s _).get r = h.infos.get r
+      simp [this]; exact hag
+    | _ => exact hag
+  grow := fun x hx => by
+    have hx' : x ∈ reach h' s := by
+      rw [mem_reach] at hx ⊢
+      rcases hx with h1 | ⟨inf', hi'', h1⟩
+      · exact Or.inl h1
+      · simp at hi''
+        subst hi''
+        exact Or.inr ⟨inf, hi', h1⟩
+    have := hf.grow x hx'
+    refine ⟨this.1, ?_⟩
+    have h2 := this.2
+    cases x <;> exact h2
+
 theorem mutate_frame {h : Heap} {s : Nat} {mu : Mut} {h' : Heap} (hm : mutate h s mu = .ok h') (ha : Alloc h s) :
     FrameOf h h' s := by
   unfold mutate at hm
@@ -1356,6 +1489,9 @@ theorem mutate_frame {h : Heap} {s : Nat} {mu : Mut} {h' : Heap} (hm : mutate h 
   | some inf =>
     simp only [hi] at hm
     cases mu with
+    | consult fr =>
+      simp only at hm
+      exact checkDataframe_frame hm ha
     | setName n =>
       simp only [getTMeta] at hm
       cases htm : h.tmetas.get inf.tmeta with
@@ -1504,71 +1640,79 @@ theorem mutate_frame {h : Heap} {s : Nat} {mu : Mut} {h' : Heap} (hm : mutate h 
         | none =>
           simp [hal, Store.alloc] at hm
           subst hm
-          exact {
-            mono := fun x hx => by
-              cases x with
-              | col r' => exact Nat.lt_succ_of_lt hx
-              | _ => exact hx
-            agree := fun x hox hnr => by
-              cases x with
-              | col r' =>
-                have : r' ≠ h.cols.next := Nat.ne_of_lt hox
-                simp [AgreeOn, this]
-              | dict r' =>
-                have : r' ≠ inf.cols := by
-                  intro e; subst e
-                  exact hnr (mem_reach.2 (Or.inr ⟨inf, hi, Or.inr (Or.inl rfl)⟩))
-                simp [AgreeOn, this]
-              | _ => rfl
-            grow := fun x hx => by
-              rw [mem_reach] at hx
-              have key : (x ∈ reach h s) ∨ x = .col h.cols.next := by
-                rcases hx with h1 | ⟨inf', hi', h1⟩
-                · exact Or.inl (mem_reach.2 (Or.inl h1))
-                · have : inf' = inf := by simp at hi'; rw [hi] at hi'; exact (Option.some.inj hi').symm
-                  subst this
-                  rcases h1 with h1 | h1 | ⟨tm, htm, h1⟩ | ⟨es', l', r', hes', hm', h1⟩
-                  · exact Or.inl (mem_reach.2 (Or.inr ⟨inf', hi, Or.inl h1⟩))
-                  · exact Or.inl (mem_reach.2 (Or.inr ⟨inf', hi, Or.inr (Or.inl h1)⟩))
-                  · exact Or.inl (mem_reach.2 (Or.inr ⟨inf', hi, Or.inr (Or.inr (Or.inl ⟨tm, htm, h1⟩))⟩))
-                  · simp at hes'
-                    subst hes'
-                    rcases List.mem_append.1 hm' with hm' | hm'
-                    · have hne : r' ≠ h.cols.next := Nat.ne_of_lt (hold l' r' hm')
-                      rcases h1 with h1 | ⟨cm2, f, hc2, hf2, h1⟩
-                      · exact Or.inl (mem_reach.2 (Or.inr ⟨inf', hi, Or.inr (Or.inr (Or.inr
-                          ⟨es, l', r', hes, hm', Or.inl h1⟩))⟩))
-                      · simp [hne] at hc2
-                        exact Or.inl (mem_reach.2 (Or.inr ⟨inf', hi, Or.inr (Or.inr (Or.inr
-                          ⟨es, l', r', hes, hm', Or.inr ⟨cm2, f, hc2, hf2, h1⟩⟩))⟩))
-                    · simp at hm'
-                      obtain ⟨rfl, rfl⟩ := hm'
-                      rcases h1 with h1 | ⟨cm2, f, hc2, hf2, h1⟩
-                      · exact Or.inr h1
-                      · simp at hc2
-                        subst hc2
-                        simp at hf2
-              rcases key with hx' | rfl
-              · refine ⟨Or.inl hx', ?_⟩
-                have := ha x hx'
+          have hf2 : FrameOf h ({ h with
+              cols := ⟨h.cols.next + 1, fun r => if r = h.cols.next then some ⟨u, none, none⟩ else h.cols.get r⟩,
+              dicts := h.dicts.write inf.cols (es ++ [(l, h.cols.next)]) } : Heap) s := {
+              mono := fun x hx => by
                 cases x with
-                | col r' => exact Nat.lt_succ_of_lt this
-                | _ => exact this
-              · exact ⟨Or.inr (Nat.le_refl _), Nat.lt_succ_self _⟩ }
+                | col r' => exact Nat.lt_succ_of_lt hx
+                | _ => exact hx
+              agree := fun x hox hnr => by
+                cases x with
+                | col r' =>
+                  have : r' ≠ h.cols.next := Nat.ne_of_lt hox
+                  simp [AgreeOn, this]
+                | dict r' =>
+                  have : r' ≠ inf.cols := by
+                    intro e; subst e
+                    exact hnr (mem_reach.2 (Or.inr ⟨inf, hi, Or.inr (Or.inl rfl)⟩))
+                  simp [AgreeOn, this]
+                | _ => rfl
+              grow := fun x hx => by
+                rw [mem_reach] at hx
+                have key : (x ∈ reach h s) ∨ x = .col h.cols.next := by
+                  rcases hx with h1 | ⟨inf', hi', h1⟩
+                  · exact Or.inl (mem_reach.2 (Or.inl h1))
+                  · have : inf' = inf := by simp at hi'; rw [hi] at hi'; exact (Option.some.inj hi').symm
+                    subst this
+                    rcases h1 with h1 | h1 | ⟨tm, htm, h1⟩ | ⟨es', l', r', hes', hm', h1⟩
+                    · exact Or.inl (mem_reach.2 (Or.inr ⟨inf', hi, Or.inl h1⟩))
+                    · exact Or.inl (mem_reach.2 (Or.inr ⟨inf', hi, Or.inr (Or.inl h1)⟩))
+                    · exact Or.inl (mem_reach.2 (Or.inr ⟨inf', hi, Or.inr (Or.inr (Or.inl ⟨tm, htm, h1⟩))⟩))
+                    · simp at hes'
+                      subst hes'
+                      rcases List.mem_append.1 hm' with hm' | hm'
+                      · have hne : r' ≠ h.cols.next := Nat.ne_of_lt (hold l' r' hm')
+                        rcases h1 with h1 | ⟨cm2, f, hc2, hf2, h1⟩
+                        · exact Or.inl (mem_reach.2 (Or.inr ⟨inf', hi, Or.inr (Or.inr (Or.inr
+                            ⟨es, l', r', hes, hm', Or.inl h1⟩))⟩))
+                        · simp [hne] at hc2
+                          exact Or.inl (mem_reach.2 (Or.inr ⟨inf', hi, Or.inr (Or.inr (Or.inr
+                            ⟨es, l', r', hes, hm', Or.inr ⟨cm2, f, hc2, hf2, h1⟩⟩))⟩))
+                      · simp at hm'
+                        obtain ⟨rfl, rfl⟩ := hm'
+                        rcases h1 with h1 | ⟨cm2, f, hc2, hf2, h1⟩
+                        · exact Or.inr h1
+                        · simp at hc2
+                          subst hc2
+                          simp at hf2
+                rcases key with hx' | rfl
+                · refine ⟨Or.inl hx', ?_⟩
+                  have := ha x hx'
+                  cases x with
+                  | col r' => exact Nat.lt_succ_of_lt this
+                  | _ => exact this
+                · exact ⟨Or.inr (Nat.le_refl _), Nat.lt_succ_self _⟩ }
+          exact frame_reset_last hf2 (by simpa using hi)
         | some old =>
           simp only [hal] at hm
-          obtain ⟨sold, hsold, st⟩ := updateFrom_ok hm
+          split at hm
+          · simp at hm
+          rename_i h2 huf
+          simp at hm
+          subst hm
+          obtain ⟨sold, hsold, st⟩ := updateFrom_ok huf
           simp [Store.alloc] at hsold st
           have holdlt : old < h.cols.next := hold l old (assoc_mem hal)
           have hne0 : old ≠ h.cols.next := Nat.ne_of_lt holdlt
           simp [hne0] at hsold
           obtain ⟨cm', hcm', hunit', hfmt'⟩ := st.cols_a
-          exact {
+          have hf2 : FrameOf h h2 s := {
             mono := fun x hx => by
               cases x with
               | col r' =>
-                have hn : h'.cols.next = h.cols.next + 1 := by simpa using st.cols_next
-                show r' < h'.cols.next
+                have hn : h2.cols.next = h.cols.next + 1 := by simpa using st.cols_next
+                show r' < h2.cols.next
                 rw [hn]; exact Nat.lt_succ_of_lt hx
               | fmt r' => exact Nat.lt_of_lt_of_le hx st.fmts.1
               | dset r' => simp [locOld] at hx ⊢; rw [st.dsets]; exact hx
@@ -1593,7 +1737,7 @@ theorem mutate_frame {h : Heap} {s : Nat} {mu : Mut} {h' : Heap} (hm : mutate h 
               | info r' => simp [AgreeOn]; rw [st.infos]
             grow := fun x hx => by
               rw [mem_reach] at hx
-              have key : (x ∈ reach h s) ∨ (x = .fmt h.fmts.next ∧ h'.fmts.next = h.fmts.next + 1) := by
+              have key : (x ∈ reach h s) ∨ (x = .fmt h.fmts.next ∧ h2.fmts.next = h.fmts.next + 1) := by
                 rcases hx with h1 | ⟨inf', hi', h1⟩
                 · exact Or.inl (mem_reach.2 (Or.inl h1))
                 · have : inf' = inf := by rw [st.infos] at hi'; simp at hi'; rw [hi] at hi'; exact (Option.some.inj hi').symm
@@ -1636,8 +1780,8 @@ theorem mutate_frame {h : Heap} {s : Nat} {mu : Mut} {h' : Heap} (hm : mutate h 
                 have hxo := ha x hx'
                 cases x with
                 | col r' =>
-                  have hn : h'.cols.next = h.cols.next + 1 := by simpa using st.cols_next
-                  show r' < h'.cols.next
+                  have hn : h2.cols.next = h.cols.next + 1 := by simpa using st.cols_next
+                  show r' < h2.cols.next
                   rw [hn]; exact Nat.lt_succ_of_lt hxo
                 | fmt r' => exact Nat.lt_of_lt_of_le hxo st.fmts.1
                 | dset r' => simp [locOld] at hxo ⊢; rw [st.dsets]; exact hxo
@@ -1645,8 +1789,10 @@ theorem mutate_frame {h : Heap} {s : Nat} {mu : Mut} {h' : Heap} (hm : mutate h 
                 | tmeta r' => simp [locOld] at hxo ⊢; rw [st.tmetas]; exact hxo
                 | info r' => simp [locOld] at hxo ⊢; rw [st.infos]; exact hxo
               · refine ⟨Or.inr (Nat.le_refl _), ?_⟩
-                show h.fmts.next < h'.fmts.next
+                show h.fmts.next < h2.fmts.next
                 rw [hn]; exact Nat.lt_succ_self _ }
+          refine frame_reset_last hf2 ?_
+          rw [st.infos]; simpa using hi
 
 
 /-! # The property
@@ -2072,6 +2218,189 @@ theorem combineStep_clash_only {out : List Label} {st : Heap × Acc} {it : Label
         · exact ⟨col, cc, rfl, hcol, hu⟩
   · simp [hin] at he
 
+/-! ### the refusal is an `InvalidTableCombineError` when everything can be read -/
+
+theorem updateFrom_err_cases {h : Heap} {a : Nat} {b : ColMeta} {e : Err} (he : updateFrom h a b = .error e) :
+    h.cols.get a = none ∨ ∃ (f : Nat), b.dispFmt = some f ∧ h.fmts.get f = none := by
+  unfold updateFrom at he
+  cases hs : h.cols.get a with
+  | none => exact Or.inl rfl
+  | some s =>
+    right
+    simp only [hs] at he
+    split at he
+    · rename_i f _ hbf
+      refine ⟨f, hbf, ?_⟩
+      unfold copyFmt at he
+      cases hf : h.fmts.get f with
+      | none => rfl
+      | some sp => simp [hf] at he
+    · simp at he
+
+theorem copyCol_err_cases {h : Heap} {c : ColMeta} {e : Err} (he : copyCol h c = .error e) :
+    ∃ (f : Nat), c.dispFmt = some f ∧ h.fmts.get f = none := by
+  unfold copyCol at he
+  simp only at he
+  split at he
+  · rename_i e' hu
+    rcases updateFrom_err_cases hu with h1 | ⟨f, hf, hg⟩
+    · simp at h1
+    · exact ⟨f, hf, hg⟩
+  · simp at he
+
+/-- every format a source column refers to exists (in the heap the loop started from) -/
+def FmtsReadable (b : Heap) (items : List (Label × ColMeta)) : Prop :=
+  ∀ l c, (l, c) ∈ items → ∀ (f : Nat), c.dispFmt = some f → f < b.fmts.next ∧ (b.fmts.get f).isSome
+
+theorem combineStep_err {out : List Label} {b h : Heap} {acc : Acc} {done : List (Label × ColMeta)}
+    {it : Label × ColMeta} {e : Err} (he : combineStep out (h, acc) it = .error e)
+    (inv : LoopInv out b h acc done)
+    (hr : ∀ (f : Nat), it.2.dispFmt = some f → f < b.fmts.next ∧ (b.fmts.get f).isSome) :
+    e = .invalidTableCombine := by
+  have hfmt : ∀ (f : Nat), it.2.dispFmt = some f → h.fmts.get f ≠ none := by
+    intro f hf hn
+    obtain ⟨h1, h2⟩ := hr f hf
+    rw [inv.fmts.2 f h1] at hn
+    simp [hn] at h2
+  unfold combineStep at he
+  simp only at he
+  by_cases hin : it.1 ∈ out
+  · simp only [hin, if_true] at he
+    cases has : assoc acc it.1 with
+    | none =>
+      simp only [has] at he
+      cases hcc : copyCol h it.2 with
+      | error e' =>
+        obtain ⟨f, hf, hg⟩ := copyCol_err_cases hcc
+        exact absurd hg (hfmt f hf)
+      | ok p => simp [hcc] at he
+    | some col =>
+      simp only [has] at he
+      obtain ⟨_, _, cm, hcm, _⟩ := inv.fresh it.1 col (assoc_mem has)
+      simp only [hcm] at he
+      by_cases hu : cm.unit = it.2.unit
+      · simp only [hu, if_true] at he
+        cases huf : updateFrom h col it.2 with
+        | error e' =>
+          rcases updateFrom_err_cases huf with h1 | ⟨f, hf, hg⟩
+          · rw [hcm] at h1; cases h1
+          · exact absurd hg (hfmt f hf)
+        | ok h1 => simp [huf] at he
+      · simp [hu] at he
+        exact he.symm
+  · simp [hin] at he
+
+theorem combineLoop_err {out : List Label} {b : Heap} (items : List (Label × ColMeta)) :
+    ∀ {h : Heap} {acc : Acc} {done : List (Label × ColMeta)} {e : Err},
+    combineLoop out (h, acc) items = .error e → LoopInv out b h acc done → FmtsReadable b items →
+    e = .invalidTableCombine := by
+  induction items with
+  | nil => intro h acc done e he; simp [combineLoop] at he
+  | cons it rest ih =>
+    intro h acc done e he inv hr
+    unfold combineLoop at he
+    cases hs : combineStep out (h, acc) it with
+    | error e' =>
+      simp [hs] at he
+      subst he
+      exact combineStep_err hs inv (fun f hf => hr it.1 it.2 List.mem_cons_self f hf)
+    | ok st =>
+      obtain ⟨h1, acc1⟩ := st
+      simp only [hs] at he
+      exact ih he (combineStep_inv hs inv) (fun l c hm => hr l c (List.mem_cons_of_mem _ hm))
+
+/-- the sources are **well allocated** as far as `_combine_tables` reads them: origins, strictness
+    flags, the first source's metadata and destinations, every source's columns and their formats -/
+structure Readable (h : Heap) (oi : Option Ref) (o : Other) (data : List Ref) : Prop where
+  origins : ∃ ps, originsOf h data = .ok ps
+  strict_obj : ∃ b, nonStrict h oi = .ok b
+  strict_other : ∃ b, nonStrict h o.own = .ok b
+  first : ∀ d0 rest, data = d0 :: rest → ∃ tm xs, metaOf h d0 = .ok tm ∧ h.dsets.get tm.dests = some xs
+  items : ∃ items, sourceItems h data = .ok items ∧ FmtsReadable h items
+
+/-- **a unit clash is refused with `InvalidTableCombineError`** — the full-strength form: when the
+    selected sources can be read (no dangling reference) and two of them register a surviving
+    column with different units, `__finalize__` raises exactly that error -/
+theorem combine_refuses_unit_clash_class {h : Heap} {m : Option Str} {oi : Option Ref} {o : Other} {fr : Frame}
+    {src : List (Option Ref)} {warned : Bool} (hsel : Spec.sources m o = .ok (src, warned))
+    (hread : Readable h oi o (src.filterMap id))
+    {d1 d2 : Nat} (h1 : some d1 ∈ src) (h2 : some d2 ∈ src) {l : Label} (hl : l ∈ fr.labels)
+    {u1 u2 : Str} (hu1 : unitOf h d1 l = some u1) (hu2 : unitOf h d2 l = some u2) (hne : u1 ≠ u2) :
+    finalize h m oi o fr = .error .invalidTableCombine := by
+  obtain ⟨e, he⟩ := combine_refuses_unit_clash (oi := oi) hsel h1 h2 hl hu1 hu2 hne
+  rw [he]
+  -- the error comes out of `_combine_tables`, and there only out of the column loop
+  unfold finalize at he
+  cases hc : combine h m oi o fr.labels with
+  | ok p =>
+    exfalso
+    obtain ⟨hC, ri, w⟩ := p
+    cases ri with
+    | none => simp [hc] at he
+    | some i =>
+      -- a successful combine means all occurrences of `l` agree on the unit
+      obtain ⟨src', warned', d0, rest, parents, ns1, ns, tm0, hh1, mref, items, hh2, acc,
+        hsel', _, hdata, _, _, _, _, hnt, hit, hloop, _, _⟩ := combine_some hc
+      rw [selectSources_spec, hsel] at hsel'
+      obtain ⟨rfl, rfl⟩ := Prod.mk.inj (Except.ok.inj hsel')
+      have inv := combineLoop_inv (b := hh1) items hloop (LoopInv.init fr.labels hh1)
+      simp only [List.nil_append] at inv
+      have m1 : d1 ∈ d0 :: rest := by rw [← hdata]; exact List.mem_filterMap.2 ⟨some d1, h1, rfl⟩
+      have m2 : d2 ∈ d0 :: rest := by rw [← hdata]; exact List.mem_filterMap.2 ⟨some d2, h2, rfl⟩
+      obtain ⟨c1, hc1, e1⟩ := sourceItems_mem hit m1 hu1
+      obtain ⟨c2, hc2, e2⟩ := sourceItems_mem hit m2 hu2
+      obtain ⟨r, hr⟩ := (inv.keys l).2 ⟨hl, c1, hc1⟩
+      obtain ⟨cm, hcm, hua⟩ := inv.units l r c1 hr hc1
+      obtain ⟨cm', hcm', hub⟩ := inv.units l r c2 hr hc2
+      rw [hcm] at hcm'
+      have : cm = cm' := Option.some.inj hcm'
+      subst this
+      exact hne (by rw [← e1, ← e2, ← hua, ← hub])
+  | error e' =>
+    simp [hc] at he
+    subst he
+    congr 1
+    unfold combine at hc
+    rw [selectSources_spec, hsel] at hc
+    simp only at hc
+    cases hdata : src.filterMap id with
+    | nil => simp [hdata] at hc
+    | cons d0 rest =>
+      rw [hdata] at hread
+      simp only [hdata] at hc
+      obtain ⟨ps, hps⟩ := hread.origins
+      simp only [hps] at hc
+      obtain ⟨b1, hb1⟩ := hread.strict_obj
+      simp only [hb1] at hc
+      obtain ⟨b2, hb2⟩ := hread.strict_other
+      have hns : ∃ ns, (if b1 then Except.ok true else nonStrict h o.own) = .ok ns := by
+        cases b1
+        · exact ⟨b2, by simpa using hb2⟩
+        · exact ⟨true, rfl⟩
+      obtain ⟨ns, hns⟩ := hns
+      simp only [hns] at hc
+      obtain ⟨tm, xs, htm, hxs⟩ := hread.first d0 rest rfl
+      simp only [htm] at hc
+      cases hnt : newTableMeta h tm.name tm.dests (.node none ps (some (pandasOp m))) false (!ns) with
+      | error e2 =>
+        exfalso
+        unfold newTableMeta at hnt
+        simp [hxs, Store.alloc] at hnt
+      | ok q =>
+        obtain ⟨hh1, mref⟩ := q
+        simp only [hnt] at hc
+        obtain ⟨items, hit, hfr⟩ := hread.items
+        simp only [hit] at hc
+        obtain ⟨_, _, _, hh1eq⟩ := newTableMeta_ok hnt
+        cases hloop : combineLoop fr.labels (hh1, []) items with
+        | ok st => obtain ⟨a, b⟩ := st; simp [hloop] at hc
+        | error e3 =>
+          simp [hloop] at hc
+          subst hc
+          have hf1 : hh1.fmts = h.fmts := by rw [hh1eq]
+          exact combineLoop_err items hloop (LoopInv.init fr.labels hh1)
+            (fun l c hm f hf => by rw [hf1]; exact hfr l c hm f hf)
+
 /-! ## degrade_or_refuse -/
 
 /-- **degrade or refuse, never a mislabelled table**: whatever the method, when no selected source
@@ -2116,7 +2445,7 @@ theorem no_alias {h : Heap} {m : Option Str} {oi : Option Ref} {o : Other} {fr :
       show i < h'.infos.next
       rw [F.infos_next, F.info_ref]; exact Nat.lt_succ_self _⟩
   · rw [F.info] at hi
-    have : inf = ⟨h.tmetas.next, h.dicts.next, some fr.state⟩ := (Option.some.inj hi).symm
+    have : inf = ⟨h.tmetas.next, h.dicts.next, some (fr.state strict)⟩ := (Option.some.inj hi).symm
     subst this
     rcases h1 with rfl | rfl | ⟨tm, htm, rfl⟩ | ⟨es, l, r, hes, hm, h1⟩
     · exact ⟨Nat.le_refl _, by show h.tmetas.next < h'.tmetas.next; rw [F.tmetas_next]; exact Nat.lt_succ_self _⟩
@@ -2177,8 +2506,9 @@ theorem frame_preserves_other {h h' : Heap} {a b : Nat} (hf : FrameOf h h' a) (s
     · exact sep.disjoint x h1 hxb
     · exact not_old_of_fresh h1 (sep.alloc_b x hxb)
 
-/-- **one mutation** (set unit / set name / add destination / add column / display unit / format)
-    on `a` changes no observation of a separated `b` -/
+/-- **one mutation** (set unit / set name / add destination / add column / display unit / format /
+    a consultation after the frame lost or re-ordered columns, which deletes and re-orders register
+    entries in place) on `a` changes no observation of a separated `b` -/
 theorem step_independence {h : Heap} {a b : Nat} {mu : Mut} {h' : Heap} (sep : Sep h a b)
     (hm : mutate h a mu = .ok h') : observe h' b = observe h b ∧ Sep h' a b :=
   frame_preserves_other (mutate_frame hm sep.alloc_a) sep
@@ -2396,10 +2726,10 @@ theorem buildTable_fresh {h2 : Heap} {name : Str} {d : Nat} {origin : Origin} {t
     | ok h6 =>
       simp [hcd2] at hb
       obtain ⟨rfl, rfl⟩ := hb
-      obtain ⟨inf5, hinf5, hcase⟩ := checkDataframe_ok hcd2
+      obtain ⟨inf5, tm5, hinf5, htm5, hcase⟩ := checkDataframe_ok hcd2
       simp at hinf5
       subst hinf5
-      rcases hcase with ⟨hlast, _⟩ | ⟨_, hdup, es, tm5, hU, accU, hes, htm5, hul, hF'⟩
+      rcases hcase with ⟨hlast, _⟩ | ⟨_, hdup, es, hU, accU, hes, hul, hF'⟩
       · simp at hlast
       simp at hes
       subst hes
@@ -2424,7 +2754,7 @@ theorem buildTable_fresh {h2 : Heap} {name : Str} {d : Nat} {origin : Origin} {t
         show (h4.dicts.alloc acc).1.write h4.dicts.next _ = _
         rw [zinv.dicts, e3d]
       have hinF : h6.infos = (h2.infos.alloc ⟨mref, h2.dicts.next, none⟩).1.write h2.infos.next
-            ⟨mref, h2.dicts.next, some fr.state⟩ := by
+            ⟨mref, h2.dicts.next, some (fr.state tm5.strict)⟩ := by
         rw [hF']; show hU.infos.write _ _ = _; rw [upd.infos]
         show (h4.infos.alloc ⟨mref, h4.dicts.next, none⟩).1.write h4.infos.next _ = _
         rw [zinv.infos, e3i, zinv.dicts, e3d]
@@ -2616,6 +2946,39 @@ example : (match finalize clashHeap (some "concat".toList) none other frame with
 example : Spec.sources (some "concat".toList) other = .ok ([some 0, some 1, none], false) ∧
     unitOf clashHeap 0 "a".toList = some "m".toList ∧ unitOf clashHeap 1 "a".toList = some "mm".toList ∧
     "a".toList ∈ frame.labels := ⟨rfl, rfl, rfl, by decide⟩
+
+/-- hypothesis `Readable` of `combine_refuses_unit_clash_class` on that input: everything
+    `_combine_tables` reads from the two sources is there -/
+example : Readable clashHeap none other [0, 1] where
+  origins := ⟨[originT, originU], rfl⟩
+  strict_obj := ⟨false, rfl⟩
+  strict_other := ⟨false, rfl⟩
+  first := by
+    intro d0 rest hd
+    obtain ⟨rfl, _⟩ := List.cons.inj hd
+    exact ⟨⟨"t".toList, 0, originT, false, true⟩, ["all".toList, "d2".toList], rfl, rfl⟩
+  items := ⟨[("a".toList, ⟨"m".toList, none, some 0⟩), ("b".toList, ⟨"text".toList, some "x".toList, none⟩),
+             ("a".toList, ⟨"mm".toList, none, none⟩), ("c".toList, ⟨"onoff".toList, none, none⟩)], rfl, by
+    intro l c hm f hf
+    simp at hm
+    rcases hm with ⟨_, rfl⟩ | ⟨_, rfl⟩ | ⟨_, rfl⟩ | ⟨_, rfl⟩ <;> simp at hf
+    subst hf
+    exact ⟨by decide, rfl⟩⟩
+
+/-- a consultation after the result frame lost column `b` and had `z` moved to the front (in place):
+    the result's register follows, the source is observed as before -/
+def frameCut : Frame :=
+  ⟨[("z".toList, "int64".toList, 'i'), ("a".toList, "float64".toList, 'f'), ("c".toList, "bool".toList, 'b')], false⟩
+
+example : (match finalize heap (some "concat".toList) none other frame with
+    | .ok (h', .table i, _) =>
+      (match mutateAll h' i [.consult frameCut] with
+       | .ok h'' => ((observe h'' 0).map (fun o => o.cols.map (fun c => (c.label, c.unit))),
+                     (observe h'' i).map (fun o => o.cols.map (fun c => (c.label, c.unit))))
+       | .error _ => (none, none))
+    | _ => (none, none)) =
+    (some [("a".toList, "m".toList), ("b".toList, "text".toList)],
+     some [("z".toList, "-".toList), ("a".toList, "m".toList), ("c".toList, "onoff".toList)]) := by rfl
 
 /-- no source with info (arithmetic with a scalar): plain frame, warning, store untouched -/
 example : (match finalize heap none none ⟨none, none, none⟩ frame with
